@@ -71,6 +71,22 @@ CHECKS["C15"] = dict(
     technique="Lean 4 proof (invariant by induction over operation histories, refinement to ghost identities) + model/implementation correspondence over exhaustive and random Lua edit histories",
 )
 
+CHECKS["C03"] = dict(
+    category="proof",
+    text=("Model/ESolver.lean follows ESolver::AnalyzeProblem statement by statement (prescribed-value bookkeeping, Allaire element "
+          "matrices, charge and boundary terms, elimination of prescribed nodes, floating-conductor folding, point charges, "
+          "(anti)periodic calls, conductor rows); its Float instance reproduces the system the REAL solver hands to PCGSolve "
+          "bit for bit (guarded hook dump) on every generated problem of every run. Properties/C03.lean proves over any field: "
+          "element matrix = Galerkin gradient form of -int eps grad u . grad phi_j, symmetric, zero row sums; element gradient "
+          "exact for affine fields; closed form of the elimination of prescribed nodes for all 8 patterns and preservation of "
+          "the free-row equations; exact order-independent accumulation (via C09). The global statement 'solution <=> weak "
+          "form at every free node, prescribed values, floating conductors, reported charges' is decided per run by an "
+          "independent SI-unit assembly (numpy) of the Galerkin equations from the drawn problem and the .res file the real "
+          "esolver wrote (labelled partial: not a theorem); renumbering = permutation and the true solver residual are checked too."),
+    design_ref="DESIGN.md section 3, C03",
+    technique="Lean 4 proof (element-level refinement to the Galerkin form, ring/field_simp) + bit-exact model/implementation correspondence on the assembled system + independent weak-form oracle on solver output",
+)
+
 NOT_YET = "check not built yet in this round; planned per DESIGN.md section 3 (Lean model + correspondence)"
 
 
